@@ -175,6 +175,11 @@ impl<'a, 'tcx> Cx<'a, 'tcx> {
                     ("ty".into(), s(ty_str(cty))),
                     ("dbg".into(), s(with_no_trimmed_paths!(format!("{:?}", c.const_)))),
                 ];
+                if let rustc_middle::mir::Const::Unevaluated(uv, _) = c.const_ {
+                    if uv.promoted.is_none() {
+                        o.push(("constdef".into(), s(path_str(self.tcx, uv.def))));
+                    }
+                }
                 if let ty::FnDef(did, args) = cty.kind() {
                     o.push(("fn".into(), self.fn_info(*did, args)));
                 } else if cty.is_integral() || cty.is_bool() || cty.is_char() {
@@ -593,6 +598,13 @@ impl rustc_driver::Callbacks for Cb {
         for ldid in tcx.hir_body_owners() {
             let did = ldid.to_def_id();
             let dk = tcx.def_kind(did);
+            if matches!(dk, DefKind::Const { .. } | DefKind::AssocConst { .. }) {
+                // named constants (e.g. `const BY_REF: bool = size_of::<T>() > size_of::<*mut T>()`): their CTFE body
+                let body = tcx.mir_for_ctfe(did);
+                let cx = Cx { tcx, body, env: TypingEnv::post_analysis(tcx, did) };
+                bodies.push(cx.body_json_promoted(did));
+                continue;
+            }
             if !matches!(dk, DefKind::Fn | DefKind::AssocFn | DefKind::Closure) {
                 continue;
             }
